@@ -75,7 +75,8 @@ INFO = {
         "bounds": "read classification: every 32-bit address; writes at an enumerated boundary set of 48 concrete addresses (both ends +-1 of every region, interior points, "
                   "addresses >= 2^24 that would alias) with symbolic values in two rounds, followed by ONE probe read at a fully symbolic 32-bit address "
                   "(for the DRAM group the probe is an enumerated set of 64 concrete addresses); 16/32-bit composition at the same boundary set",
-        "outside": "write address fully symbolic (CBMC bit-blasts the 2 MiB DRAM array: out of memory, measured); port DDR/DR registers (C16)",
+        "outside": "write address fully symbolic (a symbolic-index store into the 2 MiB DRAM array is a byte-update over two million elements: out of memory, measured; with DRAM shortened the "
+                   "two-symbolic-writes + symbolic-probe query was not decided by CaDiCaL within 25 minutes - harness c09::sym_write_probe kept unregistered); port DDR/DR registers (C16)",
         "assumptions": ["no stub at all on the bus", "fresh bus from Cpu::new() (all zero) plus the harness's own writes"],
     },
     "C10": {
@@ -112,7 +113,7 @@ INFO = {
     },
     "C17": {
         "functions": ["Timer8_0::update_timer8_0", "Timer8_0::update_tcr", "ModuleManager::write_registers/update_modules", "Bus::write (TCR0 address)"],
-        "bounds": "one update with charge 1..=64 (quick) / 1..=255 (thorough) from an arbitrary TCR, TCNT, TCORA, TCORB, TCSR and residual < divisor; unwind 42 (<= 33 ticks); TCR rewrite for all old/new values; partition lemma for all residuals and charges",
+        "bounds": "one update with charge 1..=64 (quick) / 1..=255 (thorough) from an arbitrary TCR, TCNT, TCORA, TCORB, TCSR and residual < divisor; unwind 42 (<= 33 ticks); TCR rewrite for all old/new values and two consecutive rewrites (old -> mid -> new, e.g. stop then restart) from every running state; partition lemma for all residuals and charges",
         "outside": "external / cascaded clock selects 4-7; simultaneous compare matches with a clear source (the property's exclusions); CPU writes to TCNT/TCORx/TCSR are plain stores (C09)",
         "assumptions": ["timer residual set through the guarded accessor", "registers poked directly into Bus::io_registrs2"],
     },
